@@ -628,52 +628,61 @@ Qed.
 Lemma free_of_ext s s' t : wf s' -> ext s s' -> free_in s (den s' t).
 Proof. intros W [nw E]. subst s'. eapply free_app_r. apply den_free. exact W. Qed.
 
+(* the copies: every cell of an instance is moved past everything that exists (lo = 0) *)
+Lemma shift0_free k d s u : store_bounded k s -> k <= d -> free_in s (shift_term 0 d u).
+Proof.
+  intros SB L w Hw. induction u as [a|z|x|c|f args IH] using term_ind'; cbn [shift_term] in Hw; try discriminate.
+  - cbn [Nat.leb] in Hw. simpl in Hw. apply Nat.eqb_eq in Hw. subst w. apply (lookup_bounded_none k); [exact SB|lia].
+  - simpl in Hw. rewrite existsb_exists in Hw. destruct Hw as [y [Hy Ho]]. apply in_map_iff in Hy as [x0 [<- Hx]].
+    exact (proj1 (Forall_forall _ _) IH x0 Hx Ho).
+Qed.
+
 Lemma collect_rel p sA sR tA tR xsA xsR :
   rel_st p sA sR -> rel_val p sA sR tA tR -> Forall2 (ans_rel p sA sR) xsA xsR ->
   forall p1 bA bR,
   rel_st p1 {| sto := sto sA; nxt := bA |} {| sto := sto sR; nxt := bR |} -> agree (nxt sA) p p1 ->
   nxt sA <= bA -> nxt sR <= bR ->
   exists p2,
-    rel_st p2 {| sto := sto sA; nxt := snd (collect (nxt sA) bA tA xsA) |} {| sto := sto sR; nxt := snd (collect (nxt sR) bR tR xsR) |} /\
-    agree bA p1 p2 /\ bA <= snd (collect (nxt sA) bA tA xsA) /\ bR <= snd (collect (nxt sR) bR tR xsR) /\
-    (forall a, bA <= a -> a < snd (collect (nxt sA) bA tA xsA) -> bR <= p2 a) /\
-    Forall2 (rel_val p2 {| sto := sto sA; nxt := snd (collect (nxt sA) bA tA xsA) |} {| sto := sto sR; nxt := snd (collect (nxt sR) bR tR xsR) |})
-            (fst (collect (nxt sA) bA tA xsA)) (fst (collect (nxt sR) bR tR xsR)).
+    rel_st p2 {| sto := sto sA; nxt := snd (collect 0 bA tA xsA) |} {| sto := sto sR; nxt := snd (collect 0 bR tR xsR) |} /\
+    agree bA p1 p2 /\ bA <= snd (collect 0 bA tA xsA) /\ bR <= snd (collect 0 bR tR xsR) /\
+    (forall a, bA <= a -> a < snd (collect 0 bA tA xsA) -> bR <= p2 a) /\
+    Forall2 (rel_val p2 {| sto := sto sA; nxt := snd (collect 0 bA tA xsA) |} {| sto := sto sR; nxt := snd (collect 0 bR tR xsR) |})
+            (fst (collect 0 bA tA xsA)) (fst (collect 0 bR tR xsR)).
 Proof.
   intros R V H. induction H as [|xA xR lA lR Hx H IH]; intros p1 bA bR R1 A1 LbA LbR; cbn [collect].
   - exists p1. cbn [fst snd]. split; [exact R1|]. split; [apply agree_refl|]. split; [lia|]. split; [lia|]. split; [intros a L1 L2; lia|constructor].
   - destruct Hx as [px [Rx [Ax [GA [GR Fx]]]]].
-    set (loA := nxt sA) in *. set (loR := nxt sR) in *.
-    set (mA := nxt xA - loA). set (mR := nxt xR - loR).
-    assert (LxA: loA <= nxt xA) by apply GA. assert (LxR: loR <= nxt xR) by apply GR.
-    set (q := fun a => bR + (px (a - bA + loA) - loR)).
+    rewrite !Nat.sub_0_r.
+    set (nA := nxt sA) in *. set (nR := nxt sR) in *.
+    set (mA := nxt xA). set (mR := nxt xR).
+    assert (LxA: nA <= nxt xA) by apply GA. assert (LxR: nR <= nxt xR) by apply GR.
+    set (q := fun a => bR + px (a - bA)).
     set (SA1 := {| sto := sto sA; nxt := bA |}) in *. set (SR1 := {| sto := sto sR; nxt := bR |}) in *.
     assert (Qinj: forall a b, nxt SA1 <= a -> a < nxt SA1 + mA -> nxt SA1 <= b -> b < nxt SA1 + mA -> q a = q b -> a = b).
     { cbn [nxt SA1]. intros a b L1 L2 L3 L4 E. unfold q in E.
-      assert (Ha: loA <= a - bA + loA /\ a - bA + loA < nxt xA) by (unfold mA in *; lia).
-      assert (Hb: loA <= b - bA + loA /\ b - bA + loA < nxt xA) by (unfold mA in *; lia).
-      pose proof (Fx _ (proj1 Ha) (proj2 Ha)). pose proof (Fx _ (proj1 Hb) (proj2 Hb)). fold loR in H0, H1.
-      assert (E2: px (a - bA + loA) = px (b - bA + loA)) by lia.
-      apply (r_inj Rx) in E2; [lia|apply Ha|apply Hb]. }
+      assert (Ha: a - bA < nxt xA) by (unfold mA in *; lia).
+      assert (Hb: b - bA < nxt xA) by (unfold mA in *; lia).
+      assert (E2: px (a - bA) = px (b - bA)) by lia.
+      apply (r_inj Rx) in E2; [lia|exact Ha|exact Hb]. }
     assert (Qimg: forall a, nxt SA1 <= a -> a < nxt SA1 + mA -> nxt SR1 <= q a /\ q a < nxt SR1 + mR).
     { cbn [nxt SA1 SR1]. intros a L1 L2. unfold q.
-      assert (Ha: loA <= a - bA + loA /\ a - bA + loA < nxt xA) by (unfold mA in *; lia).
-      pose proof (Fx _ (proj1 Ha) (proj2 Ha)). fold loR in H0. pose proof (r_img Rx _ (proj2 Ha)). unfold mR. lia. }
+      assert (Ha: a - bA < nxt xA) by (unfold mA in *; lia).
+      pose proof (r_img Rx _ Ha). unfold mR. lia. }
     destruct (block_rel p1 SA1 SR1 q mA mR R1 Qinj Qimg) as [R2 A2]. cbn zeta in R2, A2. cbn [nxt sto SA1 SR1] in R2, A2.
     set (p2 := fun a => if Nat.ltb a bA then p1 a else q a) in *.
-    assert (Ap2: agree loA p p2) by (eapply agree_trans; [exact LbA|exact A1|exact A2]).
+    assert (Ap2: agree nA p p2) by (eapply agree_trans; [exact LbA|exact A1|exact A2]).
     destruct (IH p2 (bA + mA) (bR + mR) R2 Ap2 ltac:(lia) ltac:(lia)) as [p3 [R3 [A3 [L3A [L3R [G3 F3]]]]]].
     unfold mA, mR in *.
-    destruct (collect loA (bA + (nxt xA - loA)) tA lA) as [esA fA]. destruct (collect loR (bR + (nxt xR - loR)) tR lR) as [esR fR].
+    destruct (collect 0 (bA + nxt xA) tA lA) as [esA fA]. destruct (collect 0 (bR + nxt xR) tR lR) as [esR fR].
     cbn [fst snd] in *.
     exists p3. split; [exact R3|]. split; [eapply agree_trans; [|exact A2|exact A3]; lia|]. split; [lia|]. split; [lia|].
     split.
-    { intros a L1 L2. destruct (Nat.lt_ge_cases a (bA + (nxt xA - loA))) as [L|L].
+    { intros a L1 L2. destruct (Nat.lt_ge_cases a (bA + nxt xA)) as [L|L].
       - rewrite <- (A3 a L). unfold p2. destruct (Nat.ltb_spec a bA); [lia|]. unfold q. lia.
       - pose proof (G3 a L L2). lia. }
     constructor; [|exact F3].
-    (* the collected instance of this answer *)
-    set (SA2 := {| sto := sto sA; nxt := bA + (nxt xA - loA) |}) in *. set (SR2 := {| sto := sto sR; nxt := bR + (nxt xR - loR) |}) in *.
+    (* the copy of the instance of this answer *)
+    set (SA2 := {| sto := sto sA; nxt := bA + nxt xA |}) in *. set (SR2 := {| sto := sto sR; nxt := bR + nxt xR |}) in *.
     apply (rel_val_mono p2 SA2 SR2 p3 _ _ _ _ R2 R3 A3); [split; cbn [sto nxt]; [exact L3A|apply ext_refl]|split; cbn [sto nxt]; [exact L3R|apply ext_refl]|].
     destruct V as [BtA [BtR Dt]].
     destruct (rel_val_mono p sA sR px xA xR tA tR R Rx Ax GA GR (conj BtA (conj BtR Dt))) as [_ [_ Dx]].
@@ -681,20 +690,17 @@ Proof.
     set (dA := den (sto xA) tA) in *.
     assert (BdA: bounded (nxt xA) dA) by (apply bounded_den; [apply (r_invA Rx)|eapply bounded_mono; [exact LxA|exact BtA]]).
     assert (BdR: bounded (nxt xR) (den (sto xR) tR)) by (apply bounded_den; [apply (r_invR Rx)|eapply bounded_mono; [exact LxR|exact BtR]]).
-    assert (FA: free_in (sto sA) (shift_term loA (bA - loA) dA)).
-    { apply (shift_free loA _ _ _ loA); [apply (r_invA R)|apply free_of_ext; [apply (r_wfA Rx)|apply GA]|lia]. }
-    assert (FR: free_in (sto sR) (shift_term loR (bR - loR) (den (sto xR) tR))).
-    { apply (shift_free loR _ _ _ loR); [apply (r_invR R)|apply free_of_ext; [apply (r_wfR Rx)|apply GR]|lia]. }
+    assert (FA: free_in (sto sA) (shift_term 0 bA dA)) by (apply (shift0_free nA); [apply (r_invA R)|exact LbA]).
+    assert (FR: free_in (sto sR) (shift_term 0 bR (den (sto xR) tR))) by (apply (shift0_free nR); [apply (r_invR R)|exact LbR]).
     split; [|split].
-    + cbn [nxt SA2]. eapply bounded_mono; [|apply (shift_bounded loA (bA - loA) (nxt xA)); [exact BdA|exact LxA]]. lia.
-    + cbn [nxt SR2]. eapply bounded_mono; [|apply (shift_bounded loR (bR - loR) (nxt xR)); [exact BdR|exact LxR]]. lia.
+    + cbn [nxt SA2]. eapply bounded_mono; [|apply (shift_bounded 0 bA (nxt xA)); [exact BdA|lia]]. lia.
+    + cbn [nxt SR2]. eapply bounded_mono; [|apply (shift_bounded 0 bR (nxt xR)); [exact BdR|lia]]. lia.
     + cbn [sto SA2 SR2]. rewrite (den_id FA), (den_id FR), Dx.
-      apply (shift_ren loA loR (bA - loA) (bR - loR) px p2 (nxt xA) dA BdA).
-      * intros c L1 L2. pose proof (r_img R c L1) as Hi. fold loR in Hi. rewrite <- (Ax c L1). split; [exact Hi|].
-        rewrite <- (Ap2 c L1). reflexivity.
-      * intros c L1 L2. pose proof (Fx c L1 L2) as Hf. fold loR in Hf. split; [exact Hf|].
-        unfold p2. destruct (Nat.ltb_spec (c + (bA - loA)) bA); [lia|]. unfold q.
-        replace (c + (bA - loA) - bA + loA) with c by lia. lia.
+      apply (shift_ren 0 0 bA bR px p2 (nxt xA) dA BdA).
+      * intros c L1 L2. lia.
+      * intros c L1 L2. split; [lia|].
+        unfold p2. destruct (Nat.ltb_spec (c + bA) bA); [lia|]. unfold q.
+        replace (c + bA - bA) with c by lia. lia.
 Qed.
 
 Lemma rel_vals_boundedA p sA sR la lb : Forall2 (rel_val p sA sR) la lb -> Forall (bounded (nxt sA)) la.
@@ -773,7 +779,7 @@ Proof.
   assert (R0: rel_st p {| sto := sto sA; nxt := nxt sA |} {| sto := sto sR; nxt := nxt sR |}) by (rewrite !st_eta_; exact R).
   destruct (collect_rel p sA sR t tR xsA xsR R Vt H1 p (nxt sA) (nxt sR) R0 (agree_refl _ _) (le_n _) (le_n _))
     as [p2 [R2 [A2 [LA [LR [G2 F2]]]]]].
-  destruct (collect (nxt sA) (nxt sA) t xsA) as [esA bA], (collect (nxt sR) (nxt sR) tR xsR) as [esR bR]. cbn [fst snd] in *.
+  destruct (collect 0 (nxt sA) t xsA) as [esA bA], (collect 0 (nxt sR) tR xsR) as [esR bR]. cbn [fst snd] in *.
   set (SA := {| sto := sto sA; nxt := bA |}) in *. set (SR := {| sto := sto sR; nxt := bR |}) in *.
   assert (GA: grows sA SA) by (split; cbn; [exact LA|apply ext_refl]).
   assert (GR: grows sR SR) by (split; cbn; [exact LR|apply ext_refl]).
